@@ -429,7 +429,10 @@ func (m *clipModel) runSetOps(ruleOp, rulePlumb, ruleClose string) {
 					c.Bad(rule, cons, pos, "%s", msg)
 				}
 			}
-			if reached == 0 {
+			if reached == 0 && strings.HasPrefix(plumbMsg, "?") {
+				c.Unk(ruleOp, label, pos, "no operand combination could be followed to the clipper: %s", plumbMsg[1:])
+				continue
+			} else if reached == 0 {
 				c.Bad(ruleOp, label, pos, "no operand combination reaches the clipper")
 				continue
 			}
